@@ -282,7 +282,91 @@ def long():
     return u
 
 
-UNIVERSES = {"long": long, "cpdeep": cpdeep, "u1l": u1l, "cpalt": cpalt, "quick": quick, "small": small, "u1": u1, "deep": deep, "retarget": retarget, "stale": stale}
+def _mtp(ts):
+    """Median time past as the consensus rule defines it: median (element len/2 of the sorted list) of the timestamps
+    of the up to 11 last headers of `ts` (the ancestors of the header being judged, oldest first)."""
+    w = sorted(ts[-11:])
+    return w[len(w) // 2]
+
+
+def zigzag(n_mono=5, n_trunk=13):
+    """TIMESTAMP-PROFILE class: a stored chain whose timestamps are legal but not monotone.  After a monotone prefix
+    the trunk alternates between a HIGH header (10 min after the latest timestamp so far) and a LOW one (one minute
+    after its own median time past: the lowest legal value), so a stored tip at an even height is dated before most
+    of its 11 predecessors and one at an odd height after all of them.  Stored chains end on a low tip (0..n-1) and
+    on a high tip (0..n-2); the in-memory list is re-seeded with that tip alone (start, Restart, DonePeer of the sync
+    peer, ImportReset), then
+      a, b    on the LOW tip: a valid, b = child of a dated exactly at the median time past of its TRUE ancestors
+              (invalid).  Any ancestor walk that reads the tip's timestamp in place of older ancestors' sees a lower
+              median (asserted below for the every-second-ancestor substitution) and lets b in;
+      c       valid sibling of b, one minute after the true median (tightest valid);
+      d, e    mirror, on the HIGH tip: d valid and dated before the tip, e = child of d, one minute after its true
+              median: valid, but at or below the median of a walk that over-weights the tip (asserted) - a wrong
+              walk refuses it (drift / completeness, not ChainValid);
+      f       child of b's valid sibling: a third header after the re-seed.
+    All timestamps are computed here (minutes after the genesis header) with this module's own median; the driver
+    turns the gaps into real headers and cross-checks each against btcd's CheckBlockHeaderContext over a full slice."""
+    assert n_trunk % 2 == 1 and n_trunk >= n_mono + 8
+    ts = {0: 0}
+    H = [{"id": 0, "parent": -1, "work": 2}]
+    chain_of = {0: [0]}
+
+    def add(parent, t=None, kind="ok"):
+        i = len(H)
+        anc = [ts[x] for x in chain_of[parent]]
+        m = _mtp(anc)
+        if kind == "badtime":
+            t = m                                   # what the driver's generator does for this kind
+        assert (t > m) == (kind == "ok"), (i, t, m)
+        gap = t - ts[parent]
+        assert gap != 0
+        # min-difficulty rule: more than 20 min after the parent = easy bits (work class 1), else the last hard bits
+        H.append({"id": i, "parent": parent, "gap": gap, "work": 1 if gap > 20 else 2, "kind": kind})
+        ts[i] = t
+        chain_of[i] = chain_of[parent] + [i]
+        return i
+
+    for h in range(1, n_trunk):
+        anc = [ts[x] for x in chain_of[h - 1]]
+        if h < n_mono:
+            add(h - 1, ts[h - 1] + 10)
+        elif h % 2 == 1:
+            add(h - 1, max(anc) + 10)               # high
+        else:
+            add(h - 1, _mtp(anc) + 1)               # low: the lowest legal timestamp
+    lo, hi = n_trunk - 1, n_trunk - 2
+    assert sum(1 for x in chain_of[lo][-11:-1] if ts[x] > ts[lo]) >= 5      # low tip: before most predecessors
+    assert all(ts[x] < ts[hi] for x in chain_of[hi][:-1])
+
+    def aliased(parent, tip):
+        """median of a walk from `parent` that, below the stored tip, reads the tip again at every second step"""
+        c = chain_of[parent]
+        k = c.index(tip)
+        seen = [ts[x] for x in c[k:]][::-1]         # parent .. tip, newest first
+        below = c[:k][::-1]                         # tip-1, tip-2, ... newest first
+        for j, x in enumerate(below):
+            seen.append(ts[x] if j % 2 == 0 else ts[tip])
+        w = sorted(seen[:11])
+        return w[len(w) // 2]
+
+    a = add(lo, ts[lo] + 10)
+    b = add(a, kind="badtime")
+    assert aliased(a, lo) < ts[b] <= _mtp([ts[x] for x in chain_of[a]])
+    c = add(a, ts[b] + 1)
+    d = add(hi, _mtp([ts[x] for x in chain_of[hi]]) + 1)
+    assert ts[d] < ts[hi]
+    e = add(d, _mtp([ts[x] for x in chain_of[d]]) + 1)
+    assert ts[e] <= aliased(d, hi)
+    f = add(c, ts[c] + 10)
+    B = [[lo], [a], [b], [c], [a, b], [d], [e], [f]]
+    u = _mk(H, {}, 1, [n_trunk + 2], [], 1, 2, batches=B,
+            init_chains=[tuple(range(0, n_trunk)), tuple(range(0, n_trunk - 1))])
+    u["init_full_only"] = True
+    u["profile_minutes"] = [ts[i] for i in range(len(H))]
+    return u
+
+
+UNIVERSES = {"zigzag": zigzag, "long": long, "cpdeep": cpdeep, "u1l": u1l, "cpalt": cpalt, "quick": quick, "small": small, "u1": u1, "deep": deep, "retarget": retarget, "stale": stale}
 
 
 def tla(u):
